@@ -26,7 +26,7 @@ TRUSTED = ['recording wrappers installed in the harness process around bootstrap
 ASSUMPTIONS = ['fixed-point (30 digit) model compared under rtol 1e-9 (1e-6 for covariances)']
 METHODS = ['cosine', 'corr', 'rho-a']
 MIDX = {'cosine': 0, 'corr': 1, 'rho-a': 2}
-KINDS = ['fixed', 'boot', 'boot', 'boot', 'cv', 'cv', 'icv', 'icv', 'bootcv', 'bootcv']
+KINDS = ['fixed', 'boot', 'boot', 'boot', 'cv', 'cv', 'icv', 'icv', 'bootcv', 'bootcv', 'dual']
 
 
 def gen_models(rng, P, allow_fit=False):
@@ -74,6 +74,17 @@ def generate(rng, tier):
                 P = nc * (nc - 1) // 2
                 c['data8'] = [[rng.randint(1, 40) for _ in range(P)] for _ in range(nr)]
                 c['models'] = gen_models(rng, P)
+        elif kind == 'dual':
+            c['n_cond'] = nc = rng.choice([6, 7])
+            P = nc * (nc - 1) // 2
+            c['data8'] = [[rng.randint(1, 40) for _ in range(P)] for _ in range(max(nr, 3))]
+            c['models'] = gen_models(rng, P)
+            c.update(N=rng.randint(5, 8), n_cv=rng.choice([1, 2]), k_pattern=rng.choice([1, 2]), k_rdm=rng.choice([1, 2]),
+                     use_correction=rng.random() < 0.7)
+            if c['method'] == 'corr' and c['k_pattern'] == 2:
+                c['method'] = 'cosine'
+            if c['k_pattern'] == 1 and c['k_rdm'] == 1:
+                c['n_cv'] = 1                  # the routine itself forces one repetition without correction then
         else:
             c['n_cond'] = nc = rng.choice([6, 7])
             P = nc * (nc - 1) // 2
@@ -83,6 +94,10 @@ def generate(rng, tier):
                      k_pattern=rng.choice([1, 2]), k_rdm=rng.choice([1, 2]), use_correction=rng.random() < 0.7,
                      routine=rng.choice(['bootstrap_crossval', 'bootstrap_crossval', 'dual_random']))
             if c['routine'] == 'dual_random':
+                # test sets of three drawn conditions: a correlation can be undefined there (constant restricted RDM), the routine then
+                # raises inside cv_noise_ceiling; the correlation is exercised through bootstrap_crossval
+                if c['method'] == 'corr':
+                    c['method'] = rng.choice(['cosine', 'rho-a'])
                 c['n_cond'] = nc = rng.choice([10, 11])
                 P = nc * (nc - 1) // 2
                 c['data8'] = [[rng.randint(1, 40) for _ in range(P)] for _ in range(rng.randint(4, 5))]
@@ -94,7 +109,7 @@ def generate(rng, tier):
 
 
 def nontrivial(c):
-    return c['call'] in ('boot', 'icv', 'bootcv')
+    return c['call'] in ('boot', 'icv', 'bootcv', 'dual')
 
 
 def build(c):
@@ -253,6 +268,21 @@ def run(c):
                            train_idx=[int(x) for x in np.atleast_1d(tr0[i][1])], test_idx=[int(x) for x in np.atleast_1d(te0[i][1])],
                            train_vecs=vecs(tr0[i][0]), test_vecs=vecs(te0[i][0])) for i in range(len(tr0))]
         o['fitter_calls'] = fit.calls
+    elif call == 'dual':
+        fit = Fitter()
+        kw = dict(method=c['method'], fitter=fit, k_pattern=c['k_pattern'], k_rdm=c['k_rdm'], N=c['N'], n_cv=c['n_cv'],
+                  use_correction=c['use_correction'] and c['n_cv'] > 1)
+        rec = []
+        with patched(EV, ['_internal_cv'], rec):
+            res = EV.eval_dual_bootstrap(models, D, **kw)
+        o = res_summary(res)
+        o['inner'] = [dict(evals=np.asarray(out[0], float)[0].tolist(), nc=[float(x) for x in np.asarray(out[1], float).ravel()]) for _, a, k, out in rec]
+        np.random.seed(c['seed'])
+        kw['fitter'] = Fitter()
+        res2 = EV.eval_dual_bootstrap(models, D, **kw)
+        o['rerun_equal'] = bool(np.array_equal(res.evaluations, res2.evaluations, equal_nan=True)
+                                and np.array_equal(res.variances, res2.variances, equal_nan=True))
+        o['n_data_rdm'], o['n_data_cond'] = int(D.n_rdm), int(D.n_cond)
     else:
         fit = Fitter()
         rec = []
@@ -365,6 +395,14 @@ def to_coq(c, o):
                          f"{flist(f['test_vecs'], fov)} {fov(ev[:, i].tolist())})")
         drawn = fopt(o['drawn'], fzlist)
         return f"(ECv {m} {n} {fmodels(c)} {drawn} {flist(folds, str)})"
+    if call == 'dual':
+        part = c.get('part', 0)
+        ev5 = np.array(o['evaluations'], float)           # N x M x K x n_cv x 3
+        nc4 = np.array(o['noise_ceiling'], float)         # 2 x N x n_cv x 3
+        var3 = np.array(o['variances'], float)            # 3 x (M+2) x (M+2)
+        if np.isnan(var3).any():
+            return None
+        o = dict(o, evaluations=ev5[..., part].tolist(), noise_ceiling=nc4[..., part].tolist(), variances=var3[part].tolist())
     ev = np.array(o['evaluations'], float)
     while ev.ndim < 4:
         ev = ev[:, :, None, :] if ev.ndim == 3 else ev[..., None]
@@ -469,6 +507,31 @@ def oracle(c, o):
             return (f"_internal_cv returned the noise ceiling {o['inner_nc']}; the ceiling of the same resample's folds "
                     f"({'cross-validated' if c['k_rdm'] > 1 or c['k_pattern'] > 1 else 'leave-one-out'}) is {o['want_nc']}")
         return None
+    if call == 'dual':
+        if c.get('part', 0) != 0:
+            return None
+        if not o['rerun_equal']:
+            return 'a rerun with the same random seed gave a different result'
+        if o['dof'] != min(o['n_data_rdm'], o['n_data_cond']) - 1:
+            return f"dof {o['dof']} != min(n_rdm, n_cond) - 1"
+        ev = np.array(o['evaluations'], float)
+        ncl = np.array(o['noise_ceiling'], float)
+        inner = list(o['inner'])
+        for i in range(ev.shape[0]):
+            if np.isnan(ev[i]).all():
+                continue
+            for r in range(c['n_cv']):
+                for k3 in range(3):
+                    if not inner:
+                        return 'fewer inner cross-validations than usable resamples'
+                    rec = inner.pop(0)
+                    if not np.allclose(ev[i, :, :, r, k3], np.array(rec['evals'], float), equal_nan=True, rtol=0, atol=0):
+                        return f'resample {i}, repetition {r}, bootstrap type {k3}: stored evaluations are not those of the inner cross-validation'
+                    if not np.allclose(ncl[:, i, r, k3], rec['nc'], equal_nan=True, rtol=0, atol=0):
+                        return f'resample {i}, repetition {r}, bootstrap type {k3}: stored noise ceiling is not that of the same resample'
+        if inner:
+            return 'more inner cross-validations than stored'
+        return None
     if call == 'bootcv':
         if not o['rerun_equal']:
             return 'a rerun with the same random seed gave a different result'
@@ -515,3 +578,30 @@ def oracle(c, o):
     if o['dof'] != max(len(c['data8']) - 1, 0):
         return f"dof {o['dof']} != number of RDMs - 1"
     return None
+
+
+_generate04 = generate
+
+
+def generate(rng, tier):        # noqa: F811  eval_dual_bootstrap: one Coq obligation per covariance of the stack
+    out = []
+    for c in _generate04(rng, tier):
+        if c['call'] == 'dual':
+            out.extend(dict(c, part=k) for k in range(3))
+        else:
+            out.append(c)
+    return out
+
+
+_run04 = run
+_cache04 = {}
+
+
+def run(c):                      # noqa: F811
+    if c['call'] != 'dual':
+        return _run04(c)
+    key = core.canon({k: v for k, v in c.items() if k != 'part'})
+    if key not in _cache04:
+        _cache04.clear()
+        _cache04[key] = _run04(c)
+    return _cache04[key]
